@@ -521,6 +521,69 @@ func GenReqWide(r *hx.Rand, script []RegT) ReqT {
 	return q
 }
 
+// GenFamily produces 2–4 requests for ONE router that instantiate templates of one family: same method,
+// same number of segments, same first segment (the compiled matcher keeps such templates in one bucket of
+// its first-segment index). Templates of a family overlap (one generalises another), so what an earlier
+// request of the family did must not change the answer to a later one.
+func GenFamily(r *hx.Rand, script []RegT) []ReqT {
+	var g RegT
+	for try := 0; try < 8; try++ {
+		g = hx.Pick(r, script)
+		if strings.Contains(g.FullPath(), ":") {
+			break
+		}
+	}
+	split := func(p string) []string { return strings.Split(strings.TrimPrefix(p, "/"), "/") }
+	gs := split(g.FullPath())
+	dyn := func(s string) bool { return s == "*" || strings.HasPrefix(s, ":") }
+	var fam []RegT
+	for _, h := range script {
+		hs := split(h.FullPath())
+		if h.Method == g.Method && len(hs) == len(gs) && (hs[0] == gs[0] || (dyn(hs[0]) && dyn(gs[0]))) {
+			fam = append(fam, h)
+		}
+	}
+	// pairs (h, g) of the family where h generalises g: first a request only h answers, then one for g
+	type pair struct{ h, g RegT }
+	var pairs []pair
+	for _, h := range fam {
+		for _, k := range fam {
+			hs, ks := split(h.FullPath()), split(k.FullPath())
+			gen, same := true, true
+			for i := range hs {
+				if hs[i] != ks[i] {
+					same = false
+					if !strings.HasPrefix(hs[i], ":") || dyn(ks[i]) {
+						gen = false
+					}
+				}
+			}
+			if gen && !same {
+				pairs = append(pairs, pair{h, k})
+			}
+		}
+	}
+	if len(pairs) > 0 && r.Chance(2, 3) {
+		p := hx.Pick(r, pairs)
+		out := []ReqT{{Method: g.Method, Path: instantiate(r, p.h.FullPath())}, {Method: g.Method, Path: instantiate(r, p.g.FullPath())}}
+		if r.Chance(1, 3) {
+			out = append([]ReqT{{Method: g.Method, Path: instantiate(r, p.g.FullPath())}}, out...)
+		}
+		return out
+	}
+	n := r.Range(2, 4)
+	out := make([]ReqT, 0, n)
+	for i := 0; i < n; i++ {
+		h := hx.Pick(r, fam)
+		q := ReqT{Method: g.Method, Path: instantiate(r, h.FullPath())}
+		if r.Chance(1, 4) {
+			q.Path = mergeInstantiate(r, h.FullPath(), hx.Pick(r, fam).FullPath())
+		}
+		out = append(out, q)
+	}
+	return out
+}
+
 // patterns Where rejects: "^" + p + "$" does not compile
 var rejectedPatterns = []string{"[0-9", "(", "a**", `\d+(`, "a{2,1}", "[z-a]", "(?P<n"}
 
